@@ -95,6 +95,9 @@ fn experiments() -> Vec<Exp> {
         for len in [1usize, 7, 40, 100, 257, 1000] {
             v.push(Exp::Uniform { container, len });
         }
+        if container % 2 == 0 {
+            v.push(Exp::Uniform { container, len: 9000 });
+        }
     }
     for len in [257usize, 1000, 5000] {
         v.push(Exp::RandomBits { p: None, via_generator: false, len });
@@ -115,6 +118,10 @@ fn experiments() -> Vec<Exp> {
         v.push(Exp::Gene { source: 4, n, close: None });
     }
     v.push(Exp::Gene { source: 3, n: 4, close: Some(0.3) });
+    // instruction sets larger than 16 bits count (the uniform close probability is 1/(n+1) for EVERY n)
+    v.push(Exp::Gene { source: 0, n: 200_000, close: None });
+    v.push(Exp::Gene { source: 2, n: 1_000_000, close: None });
+    v.push(Exp::Gene { source: 4, n: 300_000, close: None });
     for source in 0..3u8 {
         for n in 1..=8usize {
             v.push(Exp::Gene { source, n, close: None });
@@ -258,6 +265,10 @@ fn run_experiment(exp: &Exp, trials: u64, seed: u64) -> Option<Vec<Cell_>> {
         Exp::Uniform { container, len } => {
             let len = *len;
             let (mut total, mut first, mut last) = (0u64, 0u64, 0u64);
+            // long genomes: fewer trials, and the positions around the 4096- and 8192-gene marks one by one
+            let trials = if len > 2000 { trials / 100 } else { trials };
+            let marks: Vec<usize> = [4095usize, 4096, 4097, 8191, 8192, 8193].into_iter().filter(|m| *m < len).collect();
+            let mut at_mark = vec![0u64; marks.len()];
             for _ in 0..trials {
                 let from_b: Vec<bool> = match container {
                     0 | 1 => {
@@ -279,10 +290,16 @@ fn run_experiment(exp: &Exp, trials: u64, seed: u64) -> Option<Vec<Cell_>> {
                 total += from_b.iter().filter(|x| **x).count() as u64;
                 first += u64::from(from_b[0]);
                 last += u64::from(from_b[len - 1]);
+                for (k, m) in marks.iter().enumerate() {
+                    at_mark[k] += u64::from(from_b[*m]);
+                }
             }
             cell("gene taken from the second parent (all positions)".into(), trials * len as u64, total, 0.5);
             cell("first gene from the second parent".into(), trials, first, 0.5);
             cell("last gene from the second parent".into(), trials, last, 0.5);
+            for (k, m) in marks.iter().enumerate() {
+                cell(format!("gene {m} from the second parent"), trials, at_mark[k], 0.5);
+            }
         }
         Exp::RandomBits { p, via_generator, len } => {
             let len = *len;
@@ -352,6 +369,9 @@ fn run_experiment(exp: &Exp, trials: u64, seed: u64) -> Option<Vec<Cell_>> {
         }
         Exp::Gene { source, n, close } => {
             let n = *n;
+            // very large instruction sets: the uniform close probability 1/(n+1) is tiny; enough samples for
+            // ~40 expected close markers, whatever the tier
+            let trials = if n >= 65_535 && close.is_none() { 40 * (n as u64 + 1) } else { trials };
             let items: Vec<PushInstruction> = (0..n).map(instr).collect();
             let c = match close {
                 Some(c) => f64::from(*c),
@@ -414,8 +434,17 @@ fn run_experiment(exp: &Exp, trials: u64, seed: u64) -> Option<Vec<Cell_>> {
                 }
             };
             cell("gene is a close marker".into(), trials, closes, c);
-            for (i, x) in counts.iter().enumerate() {
-                cell(format!("gene is instruction #{i} of {n}"), trials, *x, (1.0 - c) / n as f64);
+            if n <= 8 {
+                for (i, x) in counts.iter().enumerate() {
+                    cell(format!("gene is instruction #{i} of {n}"), trials, *x, (1.0 - c) / n as f64);
+                }
+            } else {
+                // by octile of the instruction set
+                for o in 0..8usize {
+                    let (lo, hi) = ((o * n).div_ceil(8), ((o + 1) * n).div_ceil(8));
+                    let x: u64 = counts[lo..hi].iter().sum();
+                    cell(format!("gene is one of the instructions #{lo}..#{hi} of {n}"), trials, x, (1.0 - c) * (hi - lo) as f64 / n as f64);
+                }
             }
         }
     }
